@@ -57,14 +57,17 @@ def capacity(db, ctx):
 @rule("C12.pos-rebase", "rebased POS id = pos_id - num_system_pos + pos_offsets[dict] under dict_id>0 && pos_id>=num_system_pos; the POS "
                         "count given to append is read before Grammar::merge; load order system -> plugins -> connection edits -> user dictionaries")
 def pos_rebase(db, ctx):
-    f = db.one("get_word_info_subset", "LexiconSet")
+    f = db.view(db.one("get_word_info_subset", "LexiconSet"), keep=("update_dict_id",))
     done = False
     for n, ps in walk(f.hir):
         if n.get("k") == "Assign" and peel(n["l"]).get("k") == "Field" and peel(n["l"]).get("name") == "pos_id":
             from ..db import walk_x, deref_all as deref_let_
+            from ..flow import holds_at, var_evaluator
+            from ..guards import bound_cmp_evaluator
             deref_let = lambda e: deref_let_(e)
             txt = render(n["r"], x=True)
             sub_ok = add_ok = idx_ok = src_ok = False
+            formula = None
             for x, _ in walk_x(n["r"]):
                 if x.get("k") == "Binary" and x.get("op") == "Sub":
                     r_ = deref_let(peel_casts(x["r"]))
@@ -77,13 +80,17 @@ def pos_rebase(db, ctx):
                         s_ = deref_let(peel_casts(side))
                         if s_.get("k") == "Index" and peel(s_["e"]).get("k") == "Field" and peel(s_["e"]).get("name") == "pos_offsets":
                             add_ok = True
+                            formula = x
                             i_ = deref_let(peel_casts(s_["i"]))
                             idx_ok = i_.get("k") == "MethodCall" and i_.get("method") == "dic"
             deps = shape = sub_ok and add_ok and src_ok
-            pcs = path_conditions(n["id"], f.hir) or []
+            # the formula is evaluated exactly for (dictionary number > 0, pos id >= num_system_pos): reachability at value points
+            pcs = path_conditions((formula or n)["id"], f.hir) or []
             at = [("" if p else "!") + render(a) for c, pol in pcs if isinstance(c, dict) for a, p in atoms(c, pol)]
-            g1 = any("dict_id > 0" in a and not a.startswith("!") for a in at)
-            g2 = any("pos_id >= self.num_system_pos" in a and not a.startswith("!") for a in at)
+            is_dict = lambda e: deref_let(e).get("k") == "MethodCall" and deref_let(e).get("method") == "dic"
+            isb = lambda x: isinstance(x, dict) and x.get("k") == "Field" and x.get("name") == "num_system_pos"
+            g1 = holds_at(pcs, var_evaluator(is_dict, 0)) is False and holds_at(pcs, var_evaluator(is_dict, 1)) is not False
+            g2 = holds_at(pcs, bound_cmp_evaluator(isb, -1)) is False and holds_at(pcs, bound_cmp_evaluator(isb, 0)) is not False
             done = True
             ctx.ob("rebase|formula", deps and shape and g1 and g2 and idx_ok,
                    "pos_id := `%s` under %s (must be pos_id - num_system_pos + pos_offsets[dict_id], guarded by dict_id>0 and pos_id>=num_system_pos)" % (txt, at), fn=f, site=n.get("sp"))
@@ -99,7 +106,7 @@ def pos_rebase(db, ctx):
                 if path_ends(cal, nm):
                     order.append(nm.split("::")[-1])
                     if nm.endswith("append"):
-                        ap_arg = render(call_args(c)[2])
+                        ap_arg = render(call_args(c)[2], x=True)
     ctx.ob("merge_user_dictionary|order", order == ["read_user_dictionary", "update_cost", "append", "merge"] and "pos_list.len()" in (ap_arg or ""),
            "merge_user_dictionary: %s; append receives `%s` (the POS count before the grammars are merged)" % (order, ap_arg), fn=m)
     l = db.one("from_cfg_storage", "JapaneseDictionary")
